@@ -336,6 +336,33 @@ func piecewiseEngine(args []string) error {
 			check(float64(x2)/2, want, fmt.Sprintf("%v", float64(x2)/2))
 		}
 		check(math.NaN(), c.P.NaN, "NaN")
+		// arguments that miss the table by next to nothing are outside it all the same (ErrorOutside has no tolerance):
+		// one ulp / one part in 1e12 / one part in 1e10 beyond either end, and the infinities
+		first, last := c.P.Xs[0], c.P.Xs[len(c.P.Xs)-1]
+		span := last - first
+		for _, q := range []float64{math.Nextafter(last, math.Inf(1)), last + math.Abs(last)*1e-12, last + math.Abs(last)*1e-10, last + span*1e-9,
+			math.Nextafter(first, math.Inf(-1)), first - math.Abs(first)*1e-12, first - math.Abs(first)*1e-10, first - span*1e-9, math.Inf(1), math.Inf(-1)} {
+			if q < first || q > last {
+				check(q, [2]float64{0, 0}, fmt.Sprintf("%v (just outside [%v, %v])", q, first, last))
+			}
+		}
+		// ... and arguments next to a knot on the inside give a value between the two neighbouring table values
+		for k := 0; k+1 < len(c.P.Xs); k++ {
+			for _, q := range []float64{math.Nextafter(c.P.Xs[k], math.Inf(1)), math.Nextafter(c.P.Xs[k+1], math.Inf(-1))} {
+				s.Evaluations++
+				var y float64
+				var e error
+				if pm := protect(func() { y, e = fn.Piecewise(q, xs, ys) }); pm != "" || e != nil {
+					s.mismatch(map[string]interface{}{"kind": "error-inside-table", "xs": c.P.Xs, "ys": c.P.Ys, "q": fmt.Sprint(q), "detail": fmt.Sprintf("Piecewise(%v): %v %v", q, pm, e)})
+					continue
+				}
+				lo, hi := math.Min(c.P.Ys[k], c.P.Ys[k+1]), math.Max(c.P.Ys[k], c.P.Ys[k+1])
+				if !(y >= lo && y <= hi) {
+					s.mismatch(map[string]interface{}{"kind": "value", "xs": c.P.Xs, "ys": c.P.Ys, "q": fmt.Sprint(q),
+						"detail": fmt.Sprintf("Piecewise(%v) = %v is not between the neighbouring table values %v and %v", q, y, lo, hi)})
+				}
+			}
+		}
 		// the same table in other units of the argument: knots and query scaled by a power of two (exact in
 		// float64, so the interpolation weight is bit for bit the same) -- segments as narrow as 2e-10 and as wide
 		// as 1e8 are tables like any other
